@@ -58,11 +58,11 @@ def _finish(rec, R, replay):
         rec.frames.append("replay-diverged: %s" % (R.diverged or "log not exhausted"))
 
 
-def _mkprob(xl, xu, n_var):
+def _mkprob(xl, xu, n_var, vtype=None):
     from problems import GenProblem, Unbounded
     if xl is None:
         return Unbounded(n_var)
-    return GenProblem(n_var, 1, xl=xl, xu=xu)
+    return GenProblem(n_var, 1, xl=xl, xu=xu, vtype=vtype)
 
 
 def _warm_operator(call, xl, xu, PX, idx):
@@ -119,6 +119,8 @@ class Dem:
             # parameters was built (and used) after it
             yield {"F": gen_F(rng), "gamma": gen_gamma(rng), "dtype": dtype, "outside": bool(special == 1 and bounded),
                    "setup": ["ctor", "ctor", "ctor", "assign", "copy-assign"][rng.randint(5)], "rival": bool(rng.randint(4) == 0),
+                   # the problem declares its variables as integers (`vtype=int`); the box is the box all the same
+                   "vtype_int": bool(rng.randint(5) == 0),
                    "repair": REPAIR_KINDS[t % 4] if bounded else None,
                    "mode": ["do-idx", "do-pop", "mutation"][rng.randint(3)], "warm": bool(rng.randint(3) == 0),
                    "repair_as": ["name", "name", "name", "callable", "bad-name"][rng.randint(5)] if rng.randint(3) == 0 else "name",
@@ -134,7 +136,7 @@ class Dem:
     def run(case, replay=None):
         from pymoo.core.population import Population
         from pymoode.operators.dem import DEM
-        cfg = {k: case.get(k) for k in ("F", "gamma", "repair", "mode", "warm", "repair_as", "seed", "dtype", "outside", "setup", "rival")}
+        cfg = {k: case.get(k) for k in ("F", "gamma", "repair", "mode", "warm", "repair_as", "seed", "dtype", "outside", "setup", "rival", "vtype_int")}
         rec = Record("dem", cfg, {k: case[k] for k in ("xl", "xu", "PX", "idx")})
         PX = np.array(case["PX"], dtype=float, copy=True)
         as_int = case.get("dtype") == "int"
@@ -146,7 +148,9 @@ class Dem:
         n_mat, n_par = idx.shape
         d = PX.shape[1]
         bounded = case["repair"] is not None
-        prob = _mkprob(case["xl"] if bounded else None, case["xu"] if bounded else None, d)
+        prob = _mkprob(case["xl"] if bounded else None, case["xu"] if bounded else None, d, vtype=int if case.get("vtype_int") else None)
+        if case.get("vtype_int") and bounded:
+            rec.tags.add("vtype=int")
         pop = Population.new("X", PX.astype(np.int64) if as_int else PX.copy())
         X = np.swapaxes(PX[idx], 0, 1).copy()
         rec.inp["X"] = X
@@ -993,6 +997,7 @@ class Variant:
                    "algo_cls": ["GDE3", "NSDE", "DE", "NSDER", "GDE3MNN"][rng.randint(5)],
                    # the object that is used is a copy of the one that was built (minimize() deep-copies the algorithm)
                    "copied": ["", "", "deepcopy", "pickle"][rng.randint(4)],
+                   "vtype_int": bool(rng.randint(5) == 0),
                    "xl": xl, "xu": xu, "PX": PX, "seed": int(rng.randint(2**31 - 1))}
 
     @staticmethod
@@ -1006,7 +1011,7 @@ class Variant:
         from pymoo.core.population import Population
         from pymoo.operators.mutation.pm import PM
         from pymoode.operators.variant import DifferentialVariant
-        cfgk = ("sel", "y", "cross", "CR", "F", "gamma", "repair", "pm", "ranks", "entry", "warm", "seed", "algo_cls", "copied")
+        cfgk = ("sel", "y", "cross", "CR", "F", "gamma", "repair", "pm", "ranks", "entry", "warm", "seed", "algo_cls", "copied", "vtype_int")
         rec = Record("variant", {k: case.get(k) for k in cfgk}, {k: case[k] for k in ("xl", "xu", "PX")})
         PX = np.array(case["PX"], dtype=float, copy=True)
         n, d = PX.shape
@@ -1014,7 +1019,7 @@ class Variant:
         if case["pm"] and not bounded:
             case = dict(case, pm=False)
             rec.cfg["pm"] = False
-        prob = _mkprob(case["xl"] if bounded else None, case["xu"] if bounded else None, d)
+        prob = _mkprob(case["xl"] if bounded else None, case["xu"] if bounded else None, d, vtype=int if case.get("vtype_int") else None)
         pop = Des.make_pop(n, case["ranks"])
         pop.set("X", PX.copy())
         vs = "DE/%s/%d/%s" % (case["sel"], case["y"], case["cross"])
